@@ -471,6 +471,32 @@ func ExprPost(r *Expression, left any, op Operator, right []any) bool {
 	return r.Op == op && r.Left == l && r.Right == NormRight(right) && r.boostPower == 1.0 && r.fuzzyDistance == 1
 }
 
+// ColumnLeaf: e is the term holding exactly the column name s.
+func ColumnLeaf(e *Expression, s string) bool {
+	if e == nil || e.Op != Literal || e.Right != nil {
+		return false
+	}
+	c, ok := e.Left.(Column)
+	return ok && string(c) == s
+}
+
+// StringOfStringlike: the text of a string or of a term holding a string.
+func StringOfStringlike(in any) string {
+	if s, ok := in.(string); ok {
+		return s
+	}
+	e, _ := in.(*Expression)
+	s, _ := e.Left.(string)
+	return s
+}
+
+//@ func wrapInColumn
+//@   props C11 C02 C12
+//@   functional
+//@   decreases 1
+//@   requires NotNilExpr(in)
+//@   ensures[column-name-verbatim] isStringlike(in) ==> ColumnLeaf(out, StringOfStringlike(in))
+
 //@ func Expr
 //@   props C01 C05 C06 C10 C11 C12 C13
 //@   functional
